@@ -76,7 +76,7 @@ type termKey struct {
 type TermCtx struct {
 	tab    map[termKey]*Term
 	nextID int
-	vars   []*Term            // declared variables in creation order
+	vars   []*Term           // declared variables in creation order
 	ufs    map[string]string // UF name -> declaration
 	ufOrd  []string
 	tTrue  *Term
@@ -391,9 +391,9 @@ func (c *TermCtx) binInt(op Op, a, b *Term) *Term {
 	return c.mk(op, WInt, 0, "", []*Term{a, b})
 }
 
-func (c *TermCtx) Add(a, b *Term) *Term  { return c.bin(OpAdd, a, b) }
-func (c *TermCtx) Sub(a, b *Term) *Term  { return c.bin(OpSub, a, b) }
-func (c *TermCtx) Mul(a, b *Term) *Term  { return c.bin(OpMul, a, b) }
+func (c *TermCtx) Add(a, b *Term) *Term   { return c.bin(OpAdd, a, b) }
+func (c *TermCtx) Sub(a, b *Term) *Term   { return c.bin(OpSub, a, b) }
+func (c *TermCtx) Mul(a, b *Term) *Term   { return c.bin(OpMul, a, b) }
 func (c *TermCtx) BAndV(a, b *Term) *Term { return c.bin(OpAnd, a, b) }
 func (c *TermCtx) BOrV(a, b *Term) *Term  { return c.bin(OpOr, a, b) }
 
